@@ -37,6 +37,7 @@ type Program struct {
 	modVisited map[*ssa.Function]bool
 	modChanged bool
 	usedIntrinsics map[string]bool
+	assumedInvs    map[string]bool
 	missing []string
 	eventCache map[*ssa.Function]map[string]bool
 	implCache map[string][]implRec
@@ -409,4 +410,13 @@ func (P *Program) globalConst(f *frame, g *ssa.Global) (Term, bool) {
 		}
 	}
 	return Term{}, false
+}
+
+
+// noteAssumedInv records a data-structure invariant that a caller in another package assumed.
+func (P *Program) noteAssumedInv(name string) {
+	if P.assumedInvs == nil {
+		P.assumedInvs = map[string]bool{}
+	}
+	P.assumedInvs[name] = true
 }
